@@ -58,6 +58,11 @@ CHECKS = {
             "For every enumerated program the expected outcome (documented refusal, or the exact label set, jump targets, marker order and dispatcher routing) is computed from the generator's reference graph and compared with the parsed output of the real convert().",
             "Trusted: vf/b09/syntax.py; dispatcher routing is interpreted for the three statement forms it uses; 'errnum' is bound to the injected error number (its being undefined is a separate known finding).",
             "DESIGN.md §2 C06"),
+    "C09": ("model_checking",
+            "exhaustive enumeration of every variable name of length <= 3 (34 658 names; + length 4 over a reduced tail alphabet in thorough) in all four kinds and 13 syntactic positions, identifiers read from the parsed output",
+            "For every name the multiset of user identifiers on every emitted line must be exactly name[:2]+suffix (arr_ for arrays), in the pre-initialisation prologue too; user identifiers never match generated ones. Since the map is checked to be the identity on (first two characters, suffix, kind) for every name, the pair property follows.",
+            "Trusted: vf/b09/syntax.py for reading identifiers. Names starting with DO/PI/SQ are the C07 reserved-word finding and are only counted here.",
+            "DESIGN.md §2 C09"),
 }
 
 PENDING_REASON = "check not built yet in this revision (work in progress; will be claimed when its explorer exists)"
